@@ -176,7 +176,8 @@ def revealedValuesOk (r : Request) (p : Presentation) : Bool :=
         match info.names with
         | none => false
         | some names =>
-          decide (kv.2.values.length = names.length) &&
+          -- the group holds exactly the requested names (as a set: a request may repeat a name)
+          decide (kv.2.values.length = names.eraseDups.length) &&
           names.all (fun n =>
             match kv.2.values.lookup n with
             | none => false
